@@ -90,6 +90,55 @@ theorem c08_interrupted_safe (cfg : List (RunC κ)) (H : Harness) (stop : Option
   have := (h2 i c hc).2
   simpa [startState, List.getD_eq_getElem?_getD, List.getElem?_map, hlen ▸ hi, restored] using this
 
+/-- "executes exactly the invocations not yet recorded … recorded ones never": in any session — any
+scheduler, choice stream, order, stop point — every benchmark process that is started is for an invocation
+number beyond those recorded when the session began, and it is the next unrecorded one of its run at that
+moment (so a recorded invocation is never started again, and an interrupted or failed one is) -/
+theorem c08_recorded_never_restarted (cfg : List (RunC κ)) (H : Harness) (stop : Option Nat) (sched : Sched)
+    (fuel : Nat) (choices order : List Nat) (files : List (FP κ β)) (ms : List (Nat × Nat))
+    (hlen : ms.length = cfg.length) (hord : ∀ i, i < cfg.length → i ∈ order)
+    (hle : ∀ i c, cfg[i]? = some c → (ms.getD i (0, 0)).1 ≤ recordedInTheEnd H c i)
+    (s' : St κ β) (res : Option Bool)
+    (hrun : loop benchOf cfg H stop sched fuel choices (workList cfg ms order) (startState files ms) = (s', res)) :
+    ∀ j inv, Ev.start j inv ∈ s'.trace →
+      (ms.getD j (0, 0)).1 < inv ∧ inv ≤ (s'.runs.getD j dfltRun).m + 1 := by
+  have hinv := startState_inv cfg H files ms order hlen hord hle
+  let F : St κ β → Prop := fun s =>
+    (∀ j inv, Ev.start j inv ∈ s.trace → (ms.getD j (0, 0)).1 < inv ∧ inv ≤ (s.runs.getD j dfltRun).m + 1) ∧
+    (∀ j, j < cfg.length → (ms.getD j (0, 0)).1 ≤ (s.runs.getD j dfltRun).m)
+  have hF0 : F (startState files ms) := by
+    refine ⟨by intro j inv h; simp [startState] at h, ?_⟩
+    intro j hj
+    simp [startState, List.getD_eq_getElem?_getD, List.getElem?_map, hlen ▸ hj, restored]
+  have hstepF : ∀ (tasks : List Nat) (s : St κ β) (i : Nat) (c : RunC κ) (s1 : St κ β) (r1 : StepRes),
+      LInv cfg H tasks s → i ∈ tasks → cfg[i]? = some c → F s →
+      step benchOf cfg H stop s i = (s1, r1) → F s1 := by
+    intro tasks s i c s1 r1 hL himem hc hFs hst
+    have hi : i < s.runs.length := by rw [hL.len]; exact hL.inRange i himem
+    obtain ⟨_, _, q3, _, _, q6⟩ := step_spec benchOf cfg H stop s i c hc hi hL.b (hL.r i c hc) s1 r1 hst
+    obtain ⟨evs, ht, hev⟩ := step_trace benchOf cfg H stop s i c hc s1 r1 hst
+    have hmono : ∀ j, (s.runs.getD j dfltRun).m ≤ (s1.runs.getD j dfltRun).m := by
+      intro j
+      by_cases hji : j = i
+      · subst hji; exact q6
+      · rw [q3 j hji]
+    refine ⟨?_, fun j hj => Nat.le_trans (hFs.2 j hj) (hmono j)⟩
+    intro j inv hmem
+    rw [ht] at hmem
+    rcases List.mem_append.mp hmem with h | h
+    · have := hFs.1 j inv h
+      have := hmono j
+      omega
+    · rcases hev _ h with ⟨b, hb⟩ | hb
+      · cases hb
+      · injection hb with e1 e2
+        subst e1
+        have h1 := hFs.2 j (hL.inRange j himem)
+        have h2 := hmono j
+        omega
+  obtain ⟨hF', _⟩ := loop_spec_with benchOf cfg H stop sched F hstepF fuel choices _ _ hinv hF0 s' res hrun
+  exact hF'.1
+
 /-- A history of sessions on the same files: each session starts from the
 progress the previous one ended with (which is what loading the file restores:
 C07 `c07_load_persist`; the restored sample counts are arbitrary), with fresh
